@@ -13,6 +13,8 @@ pub mod c13;
 pub mod c14;
 pub mod c15;
 pub mod c16;
+pub mod c17;
+pub mod c18;
 pub mod c19;
 
 use crate::engine::Runner;
@@ -36,6 +38,8 @@ pub fn run(id: &str, r: &mut Runner) {
         "C14" => c14::run(r),
         "C15" => c15::run(r),
         "C16" => c16::run(r),
+        "C17" => c17::run(r),
+        "C18" => c18::run(r),
         "C19" => c19::run(r),
         _ => {
             println!("HARNESS-ERROR property {id} has no check yet");
